@@ -158,6 +158,20 @@ def handle (op : String) (args : List String) : Option String :=
       let sr := toString (repr r)
       if sa == sr then pure ("same " ++ (if a.isSome then "some" else "none") ++ " " ++ toString ts.length)
       else pure ("differ LR=" ++ (sa.replace "\n" " ") ++ " READER=" ++ (sr.replace "\n" " "))
+  -- the same for ONE call statement (`file: call_stm`) against x-c09's `pCall2`
+  | "lrcmpcall", [s] => do
+    let b ← bytesOfHex s
+    match Martian.FormatExp.lexAll b with
+    | none => pure "nolex"
+    | some ts =>
+      let a := Martian.LexerLR.parseLRCall ts
+      let r : Option Martian.FormatCall2.Call2 := match Martian.FormatCall2.pCall2 ts with
+        | some (c, []) => some c
+        | _ => none
+      let sa := toString (repr a)
+      let sr := toString (repr r)
+      if sa == sr then pure ("same " ++ (if a.isSome then "some" else "none") ++ " " ++ toString ts.length)
+      else pure ("differ LR=" ++ (sa.replace "\n" " ") ++ " READER=" ++ (sr.replace "\n" " "))
   | "failprods", [] => pure (" ".intercalate (Gen.mmFailProds.map toString))
   -- FormatExp.lexAll (C09's reduced tokenizer) vs the full tokenizer model
   | "fxcmp", [s] => do
